@@ -133,6 +133,39 @@ func loadEngine(repo string, contractPath string) (*Engine, error) {
 		return false
 	}
 	e.analyse()
+	// a field declared stable keeps its value across calls whose contract does not name it: every function that
+	// writes it and is used through a contract must therefore list it in a modifies clause (otherwise a caller would
+	// combine the old value with the callee's postcondition - an inconsistent, i.e. vacuous, context)
+	var stableErrs []string
+	for _, st := range cf.Stable {
+		field := st[strings.LastIndex(st, ".")+1:]
+		for _, w := range e.writersOf("F." + st) {
+			ct := cf.Funcs[w]
+			if ct == nil || ct.Lemma || ct.Trusted != "" || e.writesOnlyFresh(w, "F."+st) {
+				continue
+			}
+			listed := false
+			for _, cl := range ct.Clauses {
+				if cl.Kind != "modifies" {
+					continue
+				}
+				for _, loc := range cl.Locs {
+					if loc.Op == "sel" && loc.Name == field {
+						listed = true
+					}
+					if loc.Op == "call" && loc.Name == "all" && len(loc.Args) == 1 && loc.Args[0].Op == "sel" && loc.Args[0].Name == field {
+						listed = true
+					}
+				}
+			}
+			if !listed {
+				stableErrs = append(stableErrs, fmt.Sprintf("stable field %s is written by %s, whose contract does not list it in a modifies clause", st, w))
+			}
+		}
+	}
+	if len(stableErrs) > 0 {
+		return nil, fmt.Errorf("%s", strings.Join(stableErrs, "; "))
+	}
 	return e, nil
 }
 
@@ -380,6 +413,26 @@ func (e *Engine) findInitOnlyFields() {
 			e.initOnly[c] = true
 		}
 	}
+}
+
+// writesOnlyFresh: every store of function key to the component goes to an object allocated in that function
+func (e *Engine) writesOnlyFresh(key, comp string) bool {
+	fn := e.funcs[key]
+	if fn == nil {
+		return false
+	}
+	for _, b := range fn.Blocks {
+		for _, in := range b.Instrs {
+			s, ok := in.(*ssa.Store)
+			if !ok {
+				continue
+			}
+			if c, base := e.staticFieldComp(s.Addr); c == comp && !isFreshBase(base) {
+				return false
+			}
+		}
+	}
+	return true
 }
 
 func isFreshBase(v ssa.Value) bool {
